@@ -38,6 +38,10 @@ def btype(version, name):
 
 
 def configure(cfg):
+    if cfg.get("seq"):
+        CFG.update(cfg)
+        _seq_schema(CFG["version"])
+        return
     CFG.update(cfg)
     schema('1.0')
     schema('1.1')
@@ -516,7 +520,74 @@ def h_digits(li: int, b: int) -> bool:
     return ok == want
 
 
+# ---------------------------------------------------------------- derived types in one document: unions, lists, patterns
+# Several values of pattern-restricted unions and of list types are validated in one document run: the verdict of each
+# value is the one of its own type (XSD Datatypes 4.1.4: a value is checked against the facets of its type only).
+_SEQ_XSD = """<xs:schema xmlns:xs="http://www.w3.org/2001/XMLSchema">
+ <xs:simpleType name="U"><xs:union memberTypes="xs:integer xs:NCName"/></xs:simpleType>
+ <xs:simpleType name="UR1"><xs:restriction base="U"><xs:pattern value="[A-Z]+"/></xs:restriction></xs:simpleType>
+ <xs:simpleType name="UR2"><xs:restriction base="U"><xs:pattern value="[0-9]{2}"/></xs:restriction></xs:simpleType>
+ <xs:simpleType name="L"><xs:list itemType="xs:integer"/></xs:simpleType>
+ <xs:simpleType name="LR"><xs:restriction base="L"><xs:length value="2"/></xs:restriction></xs:simpleType>
+ <xs:element name="r"><xs:complexType><xs:sequence>
+   <xs:element name="e1" type="UR1"/><xs:element name="e2" type="U"/><xs:element name="e3" type="UR2"/><xs:element name="e4" type="LR"/>
+ </xs:sequence><xs:attribute name="a1" type="UR2"/><xs:attribute name="a2" type="U"/></xs:complexType></xs:element></xs:schema>"""
+SEQ_VALUES = ['12', 'ABC', 'abc', 'x y', '1 2', '7']
+_SEQ = {}
+
+
+def _seq_schema(version):
+    if version not in _SEQ:
+        import xmlschema
+        _SEQ[version] = (xmlschema.XMLSchema10 if version == '1.0' else xmlschema.XMLSchema11)(_SEQ_XSD)
+    return _SEQ[version]
+
+
+def _seq_ref(tname, text):
+    import re
+    is_int = re.fullmatch(r'[+-]?[0-9]+', text) is not None
+    is_ncname = re.fullmatch(r'[A-Za-z_][A-Za-z0-9._-]*', text) is not None
+    in_u = is_int or is_ncname
+    if tname == 'U':
+        return in_u
+    if tname == 'UR1':
+        return in_u and re.fullmatch(r'[A-Z]+', text) is not None
+    if tname == 'UR2':
+        return in_u and re.fullmatch(r'[0-9]{2}', text) is not None
+    if tname == 'LR':
+        items = text.split()
+        return len(items) == 2 and all(re.fullmatch(r'[+-]?[0-9]+', i) for i in items)
+    raise ValueError(tname)
+
+
+def pre_seq(fn, **kw):
+    return all(0 <= v < len(SEQ_VALUES) for v in kw.values())
+
+
+def h_seq(**kw) -> bool:
+    import xml.etree.ElementTree as ET
+    from engine.sym import pick
+    sch = _seq_schema(CFG["version"])
+    slots = [("e1", "UR1"), ("e2", "U"), ("e3", "UR2"), ("e4", "LR"), ("a1", "UR2"), ("a2", "U")]
+    vals = {}
+    for name, t in slots:
+        vals[name] = SEQ_VALUES[pick(kw[name], len(SEQ_VALUES))] if name in kw else {"UR1": "ABC", "U": "abc", "UR2": "12", "LR": "1 2"}[t]
+    root = ET.Element('r', {"a1": vals["a1"], "a2": vals["a2"]})
+    for name in ("e1", "e2", "e3", "e4"):
+        ET.SubElement(root, name).text = vals[name]
+    bad_paths = set()
+    for e in sch.iter_errors(root):
+        bad_paths.add((e.path or '') + ('/@' + e.reason.split("attribute ")[1].split("=")[0] if e.reason and e.reason.startswith("attribute ") else ''))
+    want = set()
+    for name, t in slots:
+        if not _seq_ref(t, vals[name]):
+            want.add('/r/@' + name if name[0] == 'a' else '/r/' + name)
+    return bad_paths == want
+
+
 def explain(fn, args):
+    if fn == "h_seq":
+        return "XSD %s values %r (pool %r)" % (CFG["version"], args, SEQ_VALUES)
     if fn == "h_digits":
         name = CFG["facet"]
         return "facet type %s literal %r bound %d (min totalDigits, fractionDigits) = %r" % (
@@ -580,6 +651,11 @@ def obligations(tier, seed):
                     "config": {"facet": f}, "timeout": 100, "twin_timeout": 20, "bound": "strings <= 2 characters over 'ab', facet value 0..3 (real facet object, bound overwritten)"})
         out.append({"name": "facet-smt/%s" % f, "engine": "smt", "fn": "smt_facet", "config": {"facet": f, "maxlen": 8}, "timeout": 60,
                     "bound": "all strings of length <= 8 and all facet values >= 0"})
+    for version in ("1.0", "1.1"):
+        for grp in (("e1", "e2", "e3"), ("a1", "a2", "e2"), ("e3", "e4", "a2")):
+            out.append({"name": "seq/%s/%s" % (version, "+".join(grp)), "fn": "h_seq", "pre": "pre_seq", "args": [[g, "int"] for g in grp],
+                        "config": {"version": version, "seq": True}, "timeout": 300, "twin_timeout": 30,
+                        "bound": "values of %s from %r in one document (pattern-restricted unions, a length-restricted list), the other values fixed valid" % (grp, SEQ_VALUES)})
     for f in ("tdI", "tdD", "fdD"):
         out.append({"name": "digits/%s" % f, "fn": "h_digits", "pre": "pre_digits", "args": [["li", "int"], ["b", "int"]],
                     "config": {"facet": f}, "timeout": 200, "twin_timeout": 20,
